@@ -196,6 +196,9 @@ End Decoder.
    reports any difference, so this flag is what the correspondence pins down:
    it is `true` for the pinned tree and becomes `false` with the repair. *)
 Definition BCodec_lenient_colon : bool := false.
+(* Repair flags of src/metainfo.rs, pinned by the correspondence in the same way. *)
+Definition Metainfo_reject_zero_piece_length : bool := false.
+Definition Metainfo_reject_total_overflow : bool := false.
 Definition decode (s : bytes) : result (list bvalue) := decode_with true BCodec_lenient_colon s.
 
 (* ---- encoder --------------------------------------------------------------- *)
